@@ -46,7 +46,7 @@ def successors(env, state, action, stochastic, outcome_limit=64):
 
 
 def bfs(env, start, is_goal, max_nodes=20000, stochastic=False, actions=None, prune=None, on_state=None,
-        on_transition=None):
+        on_transition=None, priority=None, outcome_limit=64):
     """Search the graph of non-terminal states reachable from `start`.
 
     is_goal(state, action, next_state, reward, done) decides the goal on a transition.
@@ -58,19 +58,27 @@ def bfs(env, start, is_goal, max_nodes=20000, stochastic=False, actions=None, pr
     actions = list(actions or env.action_space.actions)
     k0 = enc.es(start)
     parent = {k0: None}
-    frontier = deque([(start, k0)])
+    import heapq
+    counter = 0
+    if priority is None:
+        frontier = deque([(start, k0)])
+    else:  # best-first (still exhaustive when it runs to completion)
+        frontier = [(priority(start), counter, start, k0)]
     nodes = 0
     transitions = 0
     truncated_outcomes = False
     if on_state:
         on_state(start)
     while frontier:
-        state, k = frontier.popleft()
+        if priority is None:
+            state, k = frontier.popleft()
+        else:
+            _, _, state, k = heapq.heappop(frontier)
         nodes += 1
         if nodes > max_nodes:
             return 'budget', None, {'nodes': nodes, 'transitions': transitions}
         for a in actions:
-            succ, complete = successors(env, state, a, stochastic)
+            succ, complete = successors(env, state, a, stochastic, outcome_limit)
             truncated_outcomes |= not complete
             for ns, r, d in succ:
                 transitions += 1
@@ -89,7 +97,11 @@ def bfs(env, start, is_goal, max_nodes=20000, stochastic=False, actions=None, pr
                 kn = enc.es(ns)
                 if kn not in parent:
                     parent[kn] = (k, a)
-                    frontier.append((ns, kn))
+                    if priority is None:
+                        frontier.append((ns, kn))
+                    else:
+                        counter += 1
+                        heapq.heappush(frontier, (priority(ns), counter, ns, kn))
                     if on_state:
                         on_state(ns)
     status = 'budget' if truncated_outcomes else 'exhausted'
